@@ -15,18 +15,20 @@ variable {B : Type} [Crypto B]
 /-- what typed lookup (`GetCaveats[T]`, `DangerousUserID`) can find in a verification result -/
 def obtainable (cs : List (Cav B)) : List (Cav B) := getCaveats Cav.isAttestation cs
 
-/-- An attestation obtainable from a verification result sits at top level of a finalised proof:
-either the presented token itself is a proof (signed with the verifier's own key `k`) and carries
-it, or it is carried by an accepted discharge `d` that is a proof AND whose location has a trusted
-key that opens its key-id (the ticket) to the very secret that signs it (`trustOf … = some true`).
-Nothing is obtainable from inside a wrapper at any depth, from a non-proof token, or from a
-discharge of an untrusted third party. -/
-theorem attestation_provenance (k : B) (m : Mac B) (dms : List (Mac B)) (tr : Bytes → List B)
+/-- the provenance with the verification that admitted the attestation made explicit: in the
+discharge case `d` is the candidate that was ACCEPTED for a third-party caveat `p` of the token —
+`verifyFlat` accepted it under that caveat's key, in the trusted role, with the binding ids of the
+presented token — and the attestation is among what that verification returned.  (This is the form
+the symbolic no-forgery result `Props.Symbolic.attestation_no_forgery` starts from.) -/
+theorem attestation_source (k : B) (m : Mac B) (dms : List (Mac B)) (tr : Bytes → List B)
     (cs : List (Cav B)) (hv : verify k m dms tr = .ok cs) (a : Cav B) (ha : a ∈ obtainable cs) :
     a.isAttestation = true ∧
     ((m.nonce.proof = true ∧ a ∈ m.cavs) ∨
      (∃ p ∈ pendOf (byTicket dms) (macNonce k m.nonce) m.cavs, ∃ d ∈ p.ds,
-        d.nonce.proof = true ∧ a ∈ d.cavs ∧ trustOf (tr d.loc) d.nonce.kid p.key = some true)) := by
+        d.nonce.proof = true ∧ a ∈ d.cavs ∧ trustOf (tr d.loc) d.nonce.kid p.key = some true ∧
+        ∃ r, verifyFlat p.key d
+          (digest (macNonce k m.nonce) :: (tailsAfter (macNonce k m.nonce) m.cavs).map digest) true = .ok r ∧
+          a ∈ r)) := by
   obtain ⟨_, hok, t, hc, _, css, hm, rfl⟩ := (verifyWith_ok_iff k m dms [] true tr cs).mp hv
   -- every returned caveat is free of wrapped attestations
   have clean_m := walkOK_clean _ _ _ _ _ hok
@@ -34,12 +36,14 @@ theorem attestation_provenance (k : B) (m : Mac B) (dms : List (Mac B)) (tr : By
       trustOf (tr d.loc) d.nonce.kid p.key = some tt ∧
       walkOK d.nonce.proof (fun _ => none)
         (digest (macNonce k m.nonce) :: (tailsAfter (macNonce k m.nonce) m.cavs).map digest)
-        (macNonce p.key d.nonce) d.cavs = true ∧ r = d.cavs.filter (kept (true && tt)) := by
+        (macNonce p.key d.nonce) d.cavs = true ∧ r = d.cavs.filter (kept (true && tt)) ∧
+      verifyFlat p.key d
+        (digest (macNonce k m.nonce) :: (tailsAfter (macNonce k m.nonce) m.cavs).map digest) (true && tt) = .ok r := by
     intro r hr
     obtain ⟨q, hq, hf⟩ := mapM_mem_out _ _ css hm r hr
     obtain ⟨pre, d, post, hds, _, tt, htr, hvf⟩ := (firstDischarge_some_iff _ _ _ _ _ _).mp hf
     obtain ⟨_, hwd, _, _, _, hrd⟩ := (verifyFlat_ok_iff _ _ _ _ _).mp hvf
-    exact ⟨q, hq, d, by rw [hds]; simp, tt, htr, hwd, hrd⟩
+    exact ⟨q, hq, d, by rw [hds]; simp, tt, htr, hwd, hrd, hvf⟩
   -- all returned caveats are clean, so typed lookup sees only top-level attestations
   have hclean : ∀ c ∈ m.cavs.filter (kept true) ++ css.flatten, c.wrapsAttestation = false := by
     intro c hc
@@ -47,7 +51,7 @@ theorem attestation_provenance (k : B) (m : Mac B) (dms : List (Mac B)) (tr : By
     rcases hc with ⟨hcm, hk⟩ | ⟨r, hr, hcr⟩
     · simp only [kept, Bool.and_eq_true, Bool.not_eq_eq_eq_not, Bool.not_true] at hk
       exact (clean_m c hcm hk.1.1 hk.1.2).1
-    · obtain ⟨p, _, d, _, tt, _, hwd, rfl⟩ := hres r hr
+    · obtain ⟨p, _, d, _, tt, _, hwd, rfl, _⟩ := hres r hr
       simp only [List.mem_filter, kept, Bool.and_eq_true, Bool.not_eq_eq_eq_not, Bool.not_true] at hcr
       exact (walkOK_clean _ _ _ _ _ hwd c hcr.1 hcr.2.1.1 hcr.2.1.2).1
   unfold obtainable at ha
@@ -60,7 +64,9 @@ theorem attestation_provenance (k : B) (m : Mac B) (dms : List (Mac B)) (tr : By
     simp only [kept, Bool.and_eq_true, Bool.not_eq_eq_eq_not, Bool.not_true] at hk
     exact ⟨(clean_m a hcm hk.1.1 hk.1.2).2 hatt, hcm⟩
   · right
-    obtain ⟨p, hp, d, hd, tt, htr, hwd, rfl⟩ := hres r hr
+    obtain ⟨p, hp, d, hd, tt, htr, hwd, hreq, hvf⟩ := hres r hr
+    have hcr0 := hcr
+    rw [hreq] at hcr
     simp only [List.mem_filter, kept, Bool.and_eq_true, Bool.not_eq_eq_eq_not, Bool.not_true,
       Bool.or_eq_true, Bool.true_and] at hcr
     have hpr := (walkOK_clean _ _ _ _ _ hwd a hcr.1 hcr.2.1.1 hcr.2.1.2).2 hatt
@@ -69,7 +75,25 @@ theorem attestation_provenance (k : B) (m : Mac B) (dms : List (Mac B)) (tr : By
       · rw [hatt] at h; cases h
       · exact h
     subst htt
-    exact ⟨p, hp, d, hd, hpr, hcr.1, htr⟩
+    exact ⟨p, hp, d, hd, hpr, hcr.1, htr, r, by simpa using hvf, hcr0⟩
+
+/-- An attestation obtainable from a verification result sits at top level of a finalised proof:
+either the presented token itself is a proof (signed with the verifier's own key `k`) and carries
+it, or it is carried by an accepted discharge `d` that is a proof AND whose location has a trusted
+key that opens its key-id (the ticket) to the very secret that signs it (`trustOf … = some true`).
+Nothing is obtainable from inside a wrapper at any depth, from a non-proof token, or from a
+discharge of an untrusted third party. -/
+theorem attestation_provenance (k : B) (m : Mac B) (dms : List (Mac B)) (tr : Bytes → List B)
+    (cs : List (Cav B)) (hv : verify k m dms tr = .ok cs) (a : Cav B) (ha : a ∈ obtainable cs) :
+    a.isAttestation = true ∧
+    ((m.nonce.proof = true ∧ a ∈ m.cavs) ∨
+     (∃ p ∈ pendOf (byTicket dms) (macNonce k m.nonce) m.cavs, ∃ d ∈ p.ds,
+        d.nonce.proof = true ∧ a ∈ d.cavs ∧ trustOf (tr d.loc) d.nonce.kid p.key = some true)) := by
+  obtain ⟨hatt, h⟩ := attestation_source k m dms tr cs hv a ha
+  refine ⟨hatt, ?_⟩
+  rcases h with h | ⟨p, hp, d, hd, hpr, had, htr, _⟩
+  · exact Or.inl h
+  · exact Or.inr ⟨p, hp, d, hd, hpr, had, htr⟩
 
 /-- trust is proven by the ticket: a discharge is trusted only if some key the verifier was told
 to trust for the discharge's location opens its key-id to the secret that verifies it; a key-id a
@@ -136,6 +160,7 @@ theorem smuggled_attestation_rejected (k : B) (m : Mac B) (dms : List (Mac B)) (
 
 end Macaroon.Props.C07
 
+#print axioms Macaroon.Props.C07.attestation_source
 #print axioms Macaroon.Props.C07.attestation_provenance
 #print axioms Macaroon.Props.C07.trust_needs_matching_ticket
 #print axioms Macaroon.Props.C07.no_keys_no_trust
